@@ -1,145 +1,7 @@
-import Inkayaku.Props.Translated.MakeUnmake
-import Inkayaku.Props.Translated.ZobristXor
-import Inkayaku.Props.Translated.Check
-import Inkayaku.Gen.Rs.Legal
-import Inkayaku.Proofs.GenOK
-import Inkayaku.Proofs.GenFacts
-/-! Part of `Props/Translated`: see `Props/Translated/Basic.lean` for the overview.
-
-### o. the translated `make` / `unmake` / `zobrist_xor` / `is_valid` on GENERATED moves of WELL-FORMED boards
-
-`Props/Translated/MakeUnmake.lean` and `ZobristXor.lean` prove the equivalences under hypotheses that are exactly the panic
-conditions of the Rust.  Here these hypotheses are discharged for every move the (model) generator emits on a board
-satisfying the decidable legality predicate `WF.wf` (`GenOK.genPseudo_ok`, `GenFacts.genPseudo_hashok`): on such inputs
-the Rust functions, as translated from the current source, NEVER PANIC and compute the model's results — and
-`unmake ∘ make` restores the position (C03), `is_valid` after `make` is the model's legality test (C05).
--/
-
-namespace Inkayaku.Translated
-open Inkayaku.Board Inkayaku.Gen Inkayaku.MoveBits Inkayaku.BoardCongr Inkayaku.WF Inkayaku.MakeUnmake
-
-theorem wf_clocks {b : Board} (h : wf b = true) : 1 ≤ b.fullmove ∧ b.fullmove < 2147483648 ∧ b.halfmove ≤ 4095 ∧ b.turn ≤ 1 := by
-  unfold wf at h
-  simp only [Bool.and_eq_true, decide_eq_true_eq] at h
-  obtain ⟨⟨⟨h1, h2⟩, h3⟩, h4⟩ := h
-  have := (GenOK.wf_facts (by unfold wf; simp only [Bool.and_eq_true, decide_eq_true_eq]; exact ⟨⟨⟨h1, h2⟩, h3⟩, h4⟩)).basic.turn
-  exact ⟨h2, h3, h4, this⟩
-
-
-/-- GENERATED MOVES ON WELL-FORMED BOARDS: the translated `Bitboard::make` never panics and yields the model's successor -/
-theorem rs_make_generated {b : Board} (h : wf b = true) {m : Board.Move} (hm : m ∈ genPseudo b) :
-    Rs.Bitboard.make (toRsSide b.white) (toRsSide b.black) b.turn b.ep b.fullmove b.halfmove m.bits =
-      some (boardFields (Board.make b m)) := by
-  obtain ⟨hf1, hf2, hh, ht⟩ := wf_clocks h
-  obtain ⟨-, hok⟩ := GenOK.genPseudo_ok h m hm
-  obtain ⟨-, -, -, -, -, hmv, hot⟩ := hok
-  obtain ⟨-, -, hshape⟩ := hmv
-  obtain ⟨-, -, hoth⟩ := hot
-  unfold ShapeOK at hshape
-  refine rs_make_move_eq b m ht (by omega) (fun _ => by omega) ?_ ?_
-  · intro hc
-    rw [if_pos hc] at hshape
-    intro hn
-    rw [hn] at hshape
-    exact hshape
-  · intro hc he
-    simp only [hc, he, Bool.false_eq_true, if_false] at hshape hoth
-    refine ⟨by omega, ?_⟩
-    by_cases hp : (m.f.promotion != NO_PIECE) = true
-    · rw [if_pos hp] at hshape
-      have : (m.f.promotion != 0) = true := hp
-      rw [if_pos this]; omega
-    · rw [if_neg hp] at hshape
-      have : ¬ (m.f.promotion != 0) = true := hp
-      rw [if_neg this]; omega
-
-#print axioms rs_make_generated
-
-/-- … and the translated `Bitboard::unmake` applied to the successor never panics, yields the model's `unmake`, which is
-the original position (up to the scratch word `occupancy[NO_PIECE]`, C03) -/
-theorem rs_unmake_generated {b : Board} (h : wf b = true) {m : Board.Move} (hm : m ∈ genPseudo b) :
-    Rs.Bitboard.unmake (toRsSide (Board.make b m).white) (toRsSide (Board.make b m).black) (Board.make b m).turn
-        (Board.make b m).ep (Board.make b m).fullmove (Board.make b m).halfmove m.bits =
-      some (boardFields (Board.unmake (Board.make b m) m)) ∧
-    vis (Board.unmake (Board.make b m) m) = vis b := by
-  obtain ⟨hf1, hf2, hh, ht⟩ := wf_clocks h
-  obtain ⟨-, hok⟩ := GenOK.genPseudo_ok h m hm
-  refine ⟨?_, MakeUnmake.unmake_make hok⟩
-  obtain ⟨-, -, -, -, -, hmv, hot⟩ := hok
-  obtain ⟨-, -, hshape⟩ := hmv
-  obtain ⟨-, -, hoth⟩ := hot
-  unfold ShapeOK at hshape
-  have e1 : (Board.make b m).turn = 1 - b.turn := rfl
-  have e2 : (Board.make b m).fullmove = b.fullmove + b.turn := rfl
-  refine rs_unmake_move_eq (Board.make b m) m (by rw [e1]; omega) (by rw [e1, e2]; omega) (by rw [e2]; omega) ?_ ?_
-  · intro hc
-    rw [if_pos hc] at hshape
-    intro hn
-    rw [hn] at hshape
-    exact hshape
-  · intro hc
-    simp only [hc, Bool.false_eq_true, if_false] at hshape hoth
-    by_cases he : m.f.enPassant = true
-    · rw [if_pos he] at hoth
-      refine ⟨by rw [hoth.1]; decide, fun h' => ?_⟩
-      rw [he] at h'; exact absurd h' (by decide)
-    · rw [if_neg he] at hoth hshape
-      refine ⟨by omega, fun _ => ?_⟩
-      by_cases hp : (m.f.promotion != NO_PIECE) = true
-      · rw [if_pos hp] at hshape
-        have : (m.f.promotion != 0) = true := hp
-        rw [if_pos this]; omega
-      · rw [if_neg hp] at hshape
-        have : ¬ (m.f.promotion != 0) = true := hp
-        rw [if_neg this]; omega
-
-#print axioms rs_unmake_generated
-
-/-- … and the translated `Bitboard::zobrist_xor` never panics and yields the model's hash delta -/
-theorem rs_zobrist_xor_generated {b : Board} (h : wf b = true) {m : Board.Move} (hm : m ∈ genPseudo b) :
-    Rs.Bitboard.zobrist_xor m.bits Zobrist.blackToMove zCastleF zEnPassantF zPieceSquareF = some (Zobrist.xorOf m.f) := by
-  obtain ⟨-, hside, -, -, -, -, -, -, -, hk⟩ := GenFacts.genPseudo_hashok h m hm
-  refine rs_zobrist_xor_move m ?_ ?_
-  · intro hc
-    rw [if_pos hc] at hk
-    unfold ZobristStep.CastleOK at hk
-    intro hn
-    rw [hn] at hk
-    exact hk
-  · intro hc he hs
-    simp only [hc, he, Bool.false_eq_true, if_false, if_true] at hk
-    have : ¬ b.turn = 0 := by rw [← hside]; exact hs
-    rw [if_neg this] at hk
-    exact hk.2.2.1
-
-#print axioms rs_zobrist_xor_generated
-
-/-- `is_move_legal` = `make; is_valid; unmake` with the translated functions: the middle step on the successor -/
-theorem rs_is_valid_after_make {b : Board} (h : wf b = true) (m : Board.Move) :
-    Rs.Bitboard.is_valid (toRsSide (Board.make b m).white) (toRsSide (Board.make b m).black) (Board.make b m).turn
-      rookF bishopF knightF whitePawnF blackPawnF kingF = some (isMoveLegal b m) := by
-  obtain ⟨-, -, -, ht⟩ := wf_clocks h
-  have e1 : (Board.make b m).turn = 1 - b.turn := rfl
-  exact rs_is_valid_eq (Board.make b m) (by rw [e1]; omega)
-
-#print axioms rs_is_valid_after_make
-
-/-- END-TO-END `is_move_legal` (`make; is_valid; unmake`, translated from the current source): for every generated move of
-a well-formed board it never panics, returns the model's legality verdict and leaves the model's `unmake (make b m)` —
-the original position up to the scratch word (second component of `rs_unmake_generated`) -/
-theorem rs_is_move_legal_generated {b : Board} (h : wf b = true) {m : Board.Move} (hm : m ∈ genPseudo b) :
-    Rs.Bitboard.is_move_legal (toRsSide b.white) (toRsSide b.black) b.turn b.ep b.fullmove b.halfmove m.bits
-      rookF bishopF knightF whitePawnF blackPawnF kingF =
-    some (isMoveLegal b m, boardFields (Board.unmake (Board.make b m) m)) := by
-  unfold Rs.Bitboard.is_move_legal
-  rw [rs_make_generated h hm]
-  simp only [boardFields, Option.bind_eq_bind, Option.bind_some, rs_is_valid_after_make h m, (rs_unmake_generated h hm).1,
-    Option.pure_def]
-
-#print axioms rs_is_move_legal_generated
-
-/-! non-vacuity: the hypotheses are satisfiable (1. e2-e4 in a small legal position) -/
-example : wf demoPos = true := by decide +kernel
-example : demoMove ∈ genPseudo demoPos := by decide +kernel
-
-end Inkayaku.Translated
+import Inkayaku.Props.Translated.GenMake
+import Inkayaku.Props.Translated.GenUnmake
+import Inkayaku.Props.Translated.GenXor
+/-! Part of `Props/Translated`: compatibility umbrella.  The theorems about the translated functions on GENERATED moves of
+WELL-FORMED boards are in `GenMake.lean` (`rs_make_generated`, `rs_is_valid_after_make`), `GenUnmake.lean` (`rs_unmake_generated`,
+`rs_is_move_legal_generated`) and `GenXor.lean` (`rs_zobrist_xor_generated`); see `GenCommon.lean` for the description.  A property
+lists the file(s) of the functions it relies on, not this one. -/
